@@ -184,7 +184,7 @@ func genC16(r *rng.R, tier string, steer bool, idx int) *trace.Trace {
 			bad := rng.Pick(r, []string{"name-empty", "name-noslash", "dims-empty", "dims-zero", "chunk-rank", "chunk-zero", "chunk-too-big",
 				"maxdims-small", "maxdims-rank", "maxdims-nochunk", "dtype-bogus", "string-nosize", "array-nodims", "enum-mismatch", "opaque-notag",
 				"data-len", "data-type", "dup", "missing-parent", "attr-kind", "attr-huge", "resize-beyond", "resize-rank", "resize-fixed",
-				"delete-absent", "link-missing-target", "group-noslash", "softlink-empty", "extlink-nofile", "longname"})
+				"delete-absent", "link-missing-target", "group-noslash", "softlink-empty", "extlink-nofile", "longname", "attr-grow", "attr-grow"})
 			op := trace.Op{Op: "create_dataset", Path: path, DType: "Int32", Dims: []uint64{4}, Bad: bad}
 			switch bad {
 			case "name-empty":
@@ -253,6 +253,16 @@ func genC16(r *rng.R, tier string, steer bool, idx int) *trace.Trace {
 				v := &trace.Value{Kind: "string"}
 				v.S = strings.Repeat("H", rng.Pick(r, []int{250, 300, 70000}))
 				op = trace.Op{Op: "write_attr", Path: rng.Pick(r, dsets), Name: fmt.Sprintf("h%d", r.Intn(3)), Bad: bad, Value: v}
+			case "attr-grow":
+				// replace an attribute of the ordinary name pool by a value that may no
+				// longer fit the object header (fails or succeeds depending on the
+				// header's fill level; either way later calls must behave normally)
+				if len(dsets) == 0 {
+					continue
+				}
+				v := &trace.Value{Kind: "string"}
+				v.S = strings.Repeat("G", rng.Pick(r, []int{60, 100, 150, 200, 250}))
+				op = trace.Op{Op: "write_attr", Path: rng.Pick(r, dsets), Name: fmt.Sprintf("a%d", r.Intn(12)), Bad: bad, Value: v}
 			case "resize-beyond", "resize-rank", "resize-fixed":
 				if len(dsets) == 0 {
 					continue
@@ -374,7 +384,7 @@ func execC16(t *trace.Trace, dir string) *harness.RunResult {
 		} else if r.OK() && sawFail {
 			failedThenOK = true
 		}
-		if r.OK() && op.Bad != "" && op.Bad != "longname" && op.Bad != "delete-absent" && op.Bad != "attr-huge" {
+		if r.OK() && op.Bad != "" && op.Bad != "longname" && op.Bad != "delete-absent" && op.Bad != "attr-huge" && op.Bad != "attr-grow" {
 			res.Probes["bad-call-accepted:"+op.Bad]++
 		}
 	}
